@@ -184,6 +184,29 @@ func (j *c18Job) RunUnit(i int, c *run.Ctx) {
 				})
 				continue
 			}
+			// accessor mode: the variant must wrap exactly what the canonical spelling wraps
+			if _, rootOmitted := sp[rootSite(base)]; rootOmitted && rootSite(base) >= 0 {
+				pa, va := impl.Parse(base.Text, &j.env.CfgAcc), impl.Parse(r.Text, &j.env.CfgAcc)
+				if pa.F != nil && va.F != nil {
+					for di := 0; di < j.ds.n(); di++ {
+						c.Tick()
+						ra, rv := impl.Call(pa.F, j.ds.docs[m][di]), impl.Call(va.F, j.ds.docs[m][di])
+						c.Evals++
+						ua, oka := impl.Unwrap(ra.Values)
+						uv, okv := impl.Unwrap(rv.Values)
+						same := ra.ErrType == rv.ErrType && oka == okv && (ra.ErrType != "" || sameValues(ua, uv))
+						if !same {
+							c.Violate(run.Violation{
+								Sig:    "accessor-differs:" + spellingSig(p, sp) + ":" + gen.Shape(p),
+								Detail: fmt.Sprintf("accessor mode: %q returns %s (accessors: %v) %s, its spelling %q returns %s (accessors: %v) %s on %s", base.Text, show(ua), oka, ra.ErrType, r.Text, show(rv.Values), okv, rv.ErrType, j.ds.text[di]),
+								Size:   len(r.Text)*100 + len(j.ds.text[di]),
+								Case:   map[string]interface{}{"path": base.Text, "variant": r.Text, "doc": j.ds.text[di], "posA": base.Pos, "posB": r.Pos, "accessor": true},
+							})
+							break
+						}
+					}
+				}
+			}
 			for di := 0; di < j.ds.n(); di++ {
 				c.Tick()
 				res := impl.Call(pv.F, j.ds.docs[m][di])
@@ -220,6 +243,16 @@ func (j *c18Job) RunUnit(i int, c *run.Ctx) {
 	}
 }
 
+// rootSite returns the index of the "leading $ omitted" site of a rendering (-1 if none).
+func rootSite(r gen.Rendered) int {
+	for i, s := range r.Sites {
+		if s.Kind == "root" {
+			return i
+		}
+	}
+	return -1
+}
+
 func strList(v interface{}) []string {
 	var out []string
 	if l, ok := v.([]interface{}); ok {
@@ -237,6 +270,7 @@ func init() {
 		Level: "exploration",
 		Rule:  "every (path AST, deviating spelling, document): the canonical rendering and the variant are both parsed and evaluated; distinct by (variant text, document); non-trivial = the variant succeeds. Sites: leading/trailing space, space after [ and before ], around commas, colons, comparison and logical operators, after !, inside ?( ) and ( ), quote style of every name and string literal, +/leading zeros on every integer, .x vs ['x'] vs [\"x\"], .* vs [*], omitted leading $",
 		Assumptions: []string{
+			"spellings that omit the leading $ are additionally compared in accessor mode (same wrapping)",
 			"relational oracle: same values, or errors of the same type whose quoted step text maps to the same step index in both spellings (expected/found parts equal)",
 		},
 		Bounds: map[string]string{
@@ -249,6 +283,17 @@ func init() {
 			b, _ := cs["variant"].(string)
 			docText, _ := cs["doc"].(string)
 			env := impl.NewEnv()
+			if cs["accessor"] == true {
+				pa, va := impl.Parse(a, &env.CfgAcc), impl.Parse(b, &env.CfgAcc)
+				if pa.F == nil || va.F == nil {
+					return pa.F != nil, "variant rejected in accessor mode"
+				}
+				ra, rv := impl.Call(pa.F, decodeDoc(docText, modeFloat)), impl.Call(va.F, decodeDoc(docText, modeFloat))
+				ua, oka := impl.Unwrap(ra.Values)
+				uv, okv := impl.Unwrap(rv.Values)
+				same := ra.ErrType == rv.ErrType && oka == okv && (ra.ErrType != "" || sameValues(ua, uv))
+				return !same, fmt.Sprintf("canonical: %s accessors=%v; variant: %s accessors=%v", show(ua), oka, show(rv.Values), okv)
+			}
 			fa, fb := impl.Parse(a, &env.Cfg), impl.Parse(b, &env.Cfg)
 			if fa.F == nil {
 				return false, "canonical does not parse"
